@@ -55,10 +55,8 @@ Definition param (l : list T) (i : nat) : res T :=
 Definition eps14 : T := spow10neg S 14.
 Definition eps10 : T := spow10neg S 10.
 
-Definition plane_params_from_points (pt1 pt2 pt3 : vec) : res (list T) :=
-  let d12 := vdiff S pt1 pt2 in
-  let d13 := vdiff S pt1 pt3 in
-  let normal := vect S d12 d13 in
+(* the part of planeParamsFromPoints after the normal has been computed *)
+Definition orient_plane (normal pt1 : vec) : res (list T) :=
   let normal_len2 := mag2 S normal in
   if normal_len2 <=? eps10 then Err EValue
   else
@@ -75,6 +73,9 @@ Definition plane_params_from_points (pt1 pt2 pt3 : vec) : res (list T) :=
     else if vx un <? - eps14 then Ok flipped
     else if eps14 <? vx un then Ok params
     else Err EValue.
+
+Definition plane_params_from_points (pt1 pt2 pt3 : vec) : res (list T) :=
+  orient_plane (vect S (vdiff S pt1 pt2) (vdiff S pt1 pt3)) pt1.
 
 (* ---------- ParseMCNPSurface.normalize_surface ---------- *)
 Definition normalize_surface (mn : mnem) (params : list T) : res (list T) :=
